@@ -297,6 +297,8 @@ class Unit:
         doc += ['```', '-/']
         head = f'def {inst.lean} {binders} : {lean_type(inst.ret)} :='
         pre = []
+        for a in tr.lifted:                   # (`local_defs`) lifted local classes / nested functions, in order of completion
+            pre += a.split('\n') + ['']
         for a in reversed(tr.aux):            # inner loops were completed first and are used by the outer ones
             pre += a.split('\n') + ['']
         return pre + doc + [head] + ['  ' + ln for ln in body.split('\n')]
@@ -320,6 +322,11 @@ class FnTr:
         self.aux = []            # auxiliary recursive definitions (loops), emitted before the function
         self.fields = {}         # __init__: attribute -> Val
         self.localfns = {}       # name of a function defined in this body -> its qualified name ('outer.inner')
+        # unit hook `local_defs` (SrcSweep): nested `def`s lifted at their first call with inferred types, local classes
+        self.local_fns = {}      # nested `def`s met so far: name -> FunctionDef (see lift_local_fn)
+        self.local_classes = {}  # nested `class`es: name -> dict(node, owner, tag, fields, methods)
+        self.lifted = []         # Lean text of the lifted definitions (structures, nested functions), dependencies first
+        self.lifted_insts = {}   # (name, argument types, captured types) -> (Inst, captured names)
         self.heap = 'heap_0' if inst.heaped else None      # Lean text of the current heap (instances declared 'Heap T')
         for n, t in inst.params:
             self.env[n] = Val(lname(n), t, path=n)
@@ -355,6 +362,8 @@ class FnTr:
         c.localfns = dict(getattr(self, 'localfns', {}))
         c.no_return = getattr(self, 'no_return', False)
         c.heap = getattr(self, 'heap', None)
+        c.local_fns, c.local_classes = getattr(self, 'local_fns', {}), getattr(self, 'local_classes', {})
+        c.lifted, c.lifted_insts = getattr(self, 'lifted', []), getattr(self, 'lifted_insts', {})
         return c
 
     def wrap(self, text):
@@ -398,6 +407,8 @@ class FnTr:
                 return True
             if isinstance(s, ast.Break) and getattr(self, 'on_break', None) is not None:
                 return True
+            if isinstance(s, ast.Continue) and self.u.hooks.get('local_defs'):
+                return True
             if isinstance(s, ast.If):
                 st = self.static_test(s.test)
                 if st is True and self.always_returns(s.body):
@@ -422,6 +433,10 @@ class FnTr:
                 return ext
         if self.u.hooks.get('pycoll'):
             ext = self.pc_stmt(s, rest)           # `continue`, appends with raising arguments, `d[k].append(v)`: see `pc_stmt`
+            if ext is not None:
+                return ext
+        if self.u.hooks.get('local_defs'):
+            ext = self.ld_stmt(s, rest)           # nested defs lifted by inference, local classes, sets of objects: see `ld_stmt`
             if ext is not None:
                 return ext
         if isinstance(s, (ast.Pass, ast.Import, ast.ImportFrom)):
@@ -528,6 +543,8 @@ class FnTr:
                 return self.branch(first, lambda tr: tr.ok('true'), lambda tr: tr.ret_value(more))
             return self.branch(first, lambda tr: tr.ret_value(more), lambda tr: tr.ok('false'))
         v = self.expr(e, allow_raise=True)
+        if self.inst.ret == '?' and not getattr(v, 'raises', False) and v.typ != 'None' and '?' not in v.typ:
+            self.inst.ret = v.typ                    # a lifted local definition (`local_defs`): the first `return` fixes the result type
         want = self.inst.value_type
         if getattr(v, 'raises', False):
             if not self.inst.raises:
@@ -556,9 +573,266 @@ class FnTr:
             return self.block(s.body + ([] if self.always_returns(s.body) else rest))
         if st is False:
             return self.block(s.orelse + ([] if s.orelse and self.always_returns(s.orelse) else rest))
+        if self.u.hooks.get('join_ifs') and self.assign_only(s.body) and self.assign_only(s.orelse):
+            r = self.join_if(s, rest)
+            if r is not None:
+                return r
         then_stmts = s.body + ([] if self.always_returns(s.body) else rest)
         else_stmts = (s.orelse + ([] if s.orelse and self.always_returns(s.orelse) else rest))
         return self.branch(s.test, lambda tr: tr.block(then_stmts), lambda tr: tr.block(else_stmts))
+
+    # ---- the `local_defs` subset (SrcSweep): nested defs lifted by inference, local classes, sets of objects, joins ---------
+    def ld_stmt(self, s, rest):
+        if isinstance(s, ast.FunctionDef):
+            # a nested `def`: lifted to a definition of its own at its first call (captured locals become parameters)
+            if s.decorator_list:
+                raise Unsupported(f'`{self.inst.qual}`: decorated nested function `{s.name}`')
+            self.local_fns[s.name] = s
+            return self.block(rest)
+        if isinstance(s, ast.ClassDef):
+            # a local class: a structure (fields: what `__init__` stores) with its `__lt__` / `__eq__` / `__hash__`
+            if s.bases or s.keywords or s.decorator_list:
+                raise Unsupported(f'`{self.inst.qual}`: local class `{s.name}` with bases / decorators')
+            self.local_classes[s.name] = {'node': s, 'owner': self.inst, 'tag': None, 'fields': None, 'methods': {}}
+            return self.block(rest)
+        if isinstance(s, ast.Continue):
+            if self.on_fall is None:
+                raise Unsupported(f'`{self.inst.qual}`: `continue` outside a loop')
+            return self.on_fall(self)              # the next iteration, like falling off the end of the loop body
+        if isinstance(s, ast.AugAssign) and isinstance(s.target, ast.Name) and isinstance(s.op, (ast.Add, ast.Sub, ast.Mult)):
+            # `x += e` is `x = x + e` (lists are values here: nothing else can see the old list)
+            return self.assign(ast.Assign(targets=[ast.Name(id=s.target.id, ctx=ast.Store())],
+                                          value=ast.BinOp(left=ast.Name(id=s.target.id, ctx=ast.Load()), op=s.op, right=s.value)), rest)
+        if isinstance(s, ast.Expr) and isinstance(s.value, ast.Call) and isinstance(s.value.func, ast.Attribute) \
+                and isinstance(s.value.func.value, ast.Name) and s.value.func.value.id in self.env \
+                and s.value.func.attr in ('add', 'discard', 'sort') and not s.value.keywords:
+            return self.local_class_stmt(s.value, rest)
+        return None
+
+    def assign_only(self, stmts):
+        for st in stmts:
+            if isinstance(st, ast.AugAssign) and isinstance(st.target, ast.Name):
+                continue
+            if not isinstance(st, (ast.Assign, ast.AnnAssign)):
+                return False
+            tgts = st.targets if isinstance(st, ast.Assign) else [st.target]
+            for t in tgts:
+                if not (isinstance(t, ast.Name) or isinstance(t, ast.Tuple) and all(isinstance(x, ast.Name) for x in t.elts)):
+                    return False
+        return True
+
+    def join_if(self, s, rest):
+        """`if c: x = e` (both arms only assign locals that exist already): `let x' := if c then e else x`, then the rest
+        once — instead of the rest duplicated in both arms"""
+        names = []
+        for st in s.body + s.orelse:
+            tgts = st.targets if isinstance(st, ast.Assign) else [st.target]
+            for t in tgts:
+                for m in ast.walk(t):
+                    if isinstance(m, ast.Name) and m.id not in names:
+                        names.append(m.id)
+        if not names or any(n not in self.env or n in self.narrow for n in names) or self.has_optional_test(s.test):
+            return None
+        c = self.truth(self.expr(s.test))
+        if self.pending:
+            raise Unsupported(f'`{self.inst.qual}`: a call that may raise in the test of an assignment-only `if`')
+        types = [self.env[n].typ for n in names]
+
+        def final(tr):
+            vals = [tr.env[n] for n in names]
+            if [v.typ for v in vals] != types:
+                raise Unsupported(f'`{self.inst.qual}`: an `if` changes the type of {names}')
+            return vals[0].text if len(vals) == 1 else '(' + ', '.join(v.text for v in vals) + ')'
+        arms = []
+        top = self.fresh
+        for stmts in (s.body, s.orelse):
+            tr = self.sub()
+            tr.fresh = top
+            tr.on_fall = final
+            arms.append(tr.block(list(stmts)))
+            if tr.pending:
+                raise Unsupported(f'`{self.inst.qual}`: a call that may raise inside an assignment-only `if`')
+            self.fresh = max(self.fresh, tr.fresh)
+        j = self.gensym('j' if len(names) > 1 else lname(names[0]))
+        n = len(names)
+        for i, name in enumerate(names):
+            proj = j if n == 1 else j + '.2' * i + ('.1' if i < n - 1 else '')
+            self.env[name] = Val(proj, types[i], path=name)
+        return f'let {j} := (if {c} then\n{_indent(arms[0], 4)}\n  else\n{_indent(arms[1], 4)})\n' + self.block(rest)
+
+    def class_of_tag(self, typ):
+        for info in self.local_classes.values():
+            if info['tag'] is not None and info['tag'] == typ:
+                return info
+        return None
+
+    def elem_eq(self, typ):
+        """the equality a set of `typ` is keyed by, as a Lean function"""
+        info = self.class_of_tag(typ)
+        if info is not None:
+            if '__eq__' not in info['methods'] or '__hash__' not in info['methods']:
+                raise Unsupported(f'a set of `{typ}`, which does not define both `__eq__` and `__hash__`')
+            return info['methods']['__eq__'].lean
+        if _is_data(typ):
+            return '(fun a b => a == b)'
+        raise Unsupported(f'a set of {typ}')
+
+    def local_class_stmt(self, c, rest):
+        """`s.add(x)` / `s.discard(x)` on a local set keyed by a local class's `__eq__`; `xs.sort()` by its `__lt__`"""
+        n, attr = c.func.value.id, c.func.attr
+        old = self.env[n]
+        if attr == 'sort' and not c.args and old.typ.startswith('List '):
+            info = self.class_of_tag(old.typ[5:])
+            if info is None or '__lt__' not in info['methods']:
+                raise Unsupported(f'`{self.inst.qual}`: `.sort()` of {old.typ} (no `__lt__` in sight)')
+            lt = info['methods']['__lt__'].lean
+            nm = self.gensym(lname(n))
+            self.env[n] = Val(nm, old.typ, path=n)
+            # list.sort() is stable and only asks `b < a`: the merge keeps `a` before `b` unless `b < a`
+            return f'let {nm} := (({old.text}).mergeSort (fun a b => !({lt} b a)))\n' + self.block(rest)
+        if attr in ('add', 'discard') and len(c.args) == 1 and old.typ.startswith('Set ') and '?' not in old.typ \
+                and self.class_of_tag(old.typ[4:]) is not None:
+            v = self.expr(c.args[0])
+            if v.typ != old.typ[4:]:
+                raise Unsupported(f'`{self.inst.qual}`: `{attr}` of {v.typ} on {old.typ}')
+            eq = self.elem_eq(v.typ)
+            nm = self.gensym(lname(n))
+            self.env[n] = Val(nm, old.typ, path=n)
+            fn = 'GV.Py.setAdd' if attr == 'add' else 'GV.Py.setDiscard'
+            return f'let {nm} := ({fn} {eq} {_paren(v.text)} {_paren(old.text)})\n' + self.block(rest)
+        return None
+
+    def define_local_class(self, name, args):
+        """at the first constructor call: the field types are those of the arguments; the structure and its methods
+        are emitted before everything that uses them"""
+        info = self.local_classes[name]
+        node, owner = info['node'], info['owner']
+        meths = {m.name: m for m in node.body if isinstance(m, ast.FunctionDef)}
+        for m in node.body:
+            if not (isinstance(m, ast.FunctionDef) or isinstance(m, ast.Expr) and isinstance(m.value, ast.Constant) or isinstance(m, ast.Pass)):
+                raise Unsupported(f'local class `{name}`: `{ast.unparse(m)[:60]}` in the class body')
+        if '__init__' not in meths:
+            raise Unsupported(f'local class `{name}` without `__init__`')
+        init = meths['__init__']
+        params = [a.arg for a in init.args.args][1:]
+        if init.args.vararg or init.args.kwarg or init.args.defaults or init.args.kwonlyargs or len(params) != len(args):
+            raise Unsupported(f'local class `{name}`: constructor called with {len(args)} arguments, `__init__` takes {params}')
+        ptypes = dict(zip(params, [a.typ for a in args]))
+        fields = []
+        for st in init.body:
+            if isinstance(st, ast.Expr) and isinstance(st.value, ast.Constant) or isinstance(st, ast.Pass):
+                continue
+            ok = (isinstance(st, ast.Assign) and len(st.targets) == 1 and isinstance(st.targets[0], ast.Attribute)
+                  and isinstance(st.targets[0].value, ast.Name) and st.targets[0].value.id == init.args.args[0].arg
+                  and isinstance(st.value, ast.Name) and st.value.id in ptypes)
+            if not ok or st.targets[0].attr in [f for f, _p in fields]:
+                raise Unsupported(f'local class `{name}`: `__init__` does more than store its parameters: `{ast.unparse(st)[:60]}`')
+            fields.append((st.targets[0].attr, st.value.id))
+        tag = f'{owner.lean}.{lean_ident(name)}'
+        info.update(tag=tag, fields=fields, ptypes=ptypes, params=params)
+        for f, prm in fields:
+            self.u.attr_types[(tag, f)] = ('{}.' + lname(f), ptypes[prm])
+        out = [f'/-- the local class `{name}` of `{owner.qual}`: what `__init__` stores -/', f'structure {tag} where']
+        out += [f'  {lname(f)} : {lean_type(ptypes[prm])}' for f, prm in fields]
+        text = ['\n'.join(out)]
+        for mname, m in meths.items():
+            if mname == '__init__':
+                continue
+            want = {'__lt__': 2, '__eq__': 2, '__hash__': 1}.get(mname)
+            margs = [a.arg for a in m.args.args]
+            if want is None or len(margs) != want or m.args.vararg or m.args.kwarg or m.args.defaults or m.decorator_list:
+                raise Unsupported(f'local class `{name}`: method `{mname}`')
+            inst = Inst(f'{owner.qual}.{name}.{mname}', f'{tag}.{lean_ident(mname)}', [(a, tag) for a in margs], '?')
+            tr = FnTr(self.u, inst, m)
+            tr.local_classes, tr.lifted, tr.lifted_insts = self.local_classes, self.lifted, self.lifted_insts
+            body = tr.function_body()
+            if inst.ret == '?' or tr.aux:
+                raise Unsupported(f'local class `{name}`: method `{mname}` is outside the subset')
+            if mname in ('__lt__', '__eq__') and inst.ret != 'Bool':
+                raise Unsupported(f'local class `{name}`: `{mname}` returns {inst.ret}')
+            binders = ' '.join([f'({n} : {t})' for n, t in self.u.ctx_params] + [f'({lname(a)} : {tag})' for a in margs])
+            src = [ln.replace('-/', '- /') for ln in ast.unparse(m).split('\n') if not ln.strip().startswith(('"""', "'''"))]
+            text.append('\n'.join([f'/-- `{name}.{mname}`', '```'] + src + ['```', '-/',
+                                   f'def {inst.lean} {binders} : {lean_type(inst.ret)} :='] + ['  ' + ln for ln in body.split('\n')]))
+            info['methods'][mname] = inst
+        self.lifted.append('\n\n'.join(text))
+        return info
+
+    def local_ctor(self, name, args):
+        info = self.local_classes[name]
+        if info['tag'] is None:
+            info = self.define_local_class(name, args)
+        if [a.typ for a in args] != [info['ptypes'][p] for p in info['params']]:
+            raise Unsupported(f'`{name}(…)` at {[a.typ for a in args]}, first built at {[info["ptypes"][p] for p in info["params"]]}')
+        by_param = dict(zip(info['params'], args))
+        inner = ', '.join(f'{lname(f)} := {by_param[prm].text}' for f, prm in info['fields'])
+        return Val('({ ' + inner + ' } : ' + info['tag'] + ')', info['tag'])
+
+    def spread_args(self, nodes):
+        """positional arguments with `*pair` spread (a statically sized sequence: a 2-tuple or a comprehension over one)"""
+        out = []
+        for a in nodes:
+            if isinstance(a, ast.Starred):
+                v = self.expr(a.value)
+                parts = _prod_parts(v.typ)
+                if not (v.typ.startswith('Prod ') and len(parts) == 2 and parts[0] == parts[1]):
+                    raise Unsupported(f'`*` of {v.typ} in a call')
+                out += [Val(f'{_paren(v.text)}.1', parts[0]), Val(f'{_paren(v.text)}.2', parts[1])]
+            else:
+                out.append(self.expr(a))
+        return out
+
+    def lift_local_fn(self, name, args):
+        """a call of a nested `def`: one lifted definition per argument types, the enclosing function's locals it
+        reads as leading parameters (their values at the time of the call, as Python's closures see them)"""
+        fn = self.local_fns[name]
+        params = [a.arg for a in fn.args.args]
+        if fn.args.vararg or fn.args.kwarg or fn.args.kwonlyargs or fn.args.defaults or len(params) != len(args):
+            raise Unsupported(f'`{self.inst.qual}`: nested function `{name}` called with {len(args)} arguments, takes {params}')
+        stored = {m.id for m in ast.walk(fn) if isinstance(m, ast.Name) and isinstance(m.ctx, ast.Store)} | set(params)
+        free = []
+        for m in ast.walk(fn):
+            if isinstance(m, ast.Name) and isinstance(m.ctx, ast.Load) and m.id not in stored and m.id in self.env \
+                    and self.env[m.id].typ not in ('None', 'Kw') and m.id not in free:
+                free.append(m.id)
+        key = (name, tuple(a.typ for a in args), tuple(self.env[n].typ for n in free))
+        if key not in self.lifted_insts:
+            if any(k[0] == name for k in self.lifted_insts):
+                suffix = '_' + str(1 + sum(1 for k in self.lifted_insts if k[0] == name))
+            else:
+                suffix = ''
+            inst = Inst(f'{self.inst.qual}.{name}', f'{self.inst.lean}.{lean_ident(name)}{suffix}',
+                        list(zip(params, [a.typ for a in args])), '?')
+            self.lifted_insts[key] = None              # in progress: a recursive nested function is outside the subset
+            tr = FnTr(self.u, inst, fn)
+            tr.local_fns = {k: v for k, v in self.local_fns.items() if k != name}
+            tr.local_classes, tr.lifted, tr.lifted_insts = self.local_classes, self.lifted, self.lifted_insts
+            for n in free:
+                tr.env[n] = Val(lname(n), self.env[n].typ, path=n)
+            body = tr.function_body()
+            if inst.ret == '?':
+                raise Unsupported(f'`{inst.qual}`: no result type could be inferred')
+            binders = ' '.join([f'({n} : {t})' for n, t in self.u.ctx_params] +
+                               [f'({lname(n)} : {lean_type(self.env[n].typ)})' for n in free] +
+                               [f'({lname(n)} : {lean_type(t)})' for n, t in inst.params])
+            src = [ln.replace('-/', '- /') for ln in ast.unparse(fn).split('\n') if not ln.strip().startswith(('"""', "'''"))][:40]
+            pre = []
+            for a in reversed(tr.aux):
+                pre += [a, '']
+            doc = [f'/-- the nested function `{name}` of `{self.inst.qual}`, lifted' +
+                   (' (captured: ' + ', '.join(free) + ')' if free else ''), '```'] + src + ['```', '-/']
+            self.lifted.append('\n'.join(pre + doc + [f'def {inst.lean} {binders} : {lean_type(inst.ret)} :='] +
+                                         ['  ' + ln for ln in body.split('\n')]))
+            self.lifted_insts[key] = (inst, free)
+        if self.lifted_insts[key] is None:
+            raise Unsupported(f'`{self.inst.qual}`: the nested function `{name}` calls itself')
+        inst, free = self.lifted_insts[key]
+        ctx = [n for n, _t in self.u.ctx_params]
+        txt = ' '.join([inst.lean] + ctx + [_paren(self.env[n].text) for n in free] + [_paren(a.text) for a in args])
+        v = Val(f'({txt})', inst.value_type)
+        v.raises = inst.raises
+        return v
+
 
     def branch(self, test, then_k, else_k):
         """Lean text of `if test then … else …`, with Optional truthiness / None tests turned into matches that bind the
@@ -596,6 +870,10 @@ class FnTr:
             t_some.narrow[v.path] = Val(name, v.typ[4:], path=v.path)
             some_txt = (then_k if present_is_true else else_k)(t_some)
             none_txt = (else_k if present_is_true else then_k)(t_none)
+            import re as _re
+            if self.u.hooks.get('opt_tests_as_issome') and not _re.search(r'(?<![\w.])' + _re.escape(name) + r'(?![\w])', some_txt):
+                # the narrowed value is never read: a plain test (a `match` on a call makes Lean unfold the callee)
+                return self.wrap(f'if ({v.text}).isSome then\n{_indent(some_txt)}\nelse\n{_indent(none_txt)}')
             return self.wrap(f'match {v.text} with\n| some {name} =>\n{_indent(some_txt)}\n| none =>\n{_indent(none_txt)}')
         c = self.truth(self.expr(test))
         a, b = self.sub(), self.sub()
@@ -897,6 +1175,8 @@ class FnTr:
         if s.orelse:
             raise Unsupported(f'`{self.inst.qual}`: for/else')
         xs = self.iterable(s.iter)
+        if xs.typ.startswith('Set ') and '?' not in xs.typ and self.u.hooks.get('local_defs'):
+            xs = Val(xs.text, 'List ' + xs.typ[4:])        # a set is iterated as the list of its elements
         if not xs.typ.startswith('List '):
             raise Unsupported(f'`{self.inst.qual}`: loop over {xs.typ}')
         if getattr(self, 'heap', None) is not None:
@@ -1424,6 +1704,12 @@ class FnTr:
                 assigned.add(n.value.func.value.value.id)          # `d[k].append(v)`
             if isinstance(n, ast.Continue) and self.u.hooks.get('pycoll'):
                 continue                                           # the next iteration with the current state (`pc_stmt`)
+            if self.u.hooks.get('local_defs') and isinstance(n, ast.Expr) and isinstance(n.value, ast.Call) \
+                    and isinstance(n.value.func, ast.Attribute) and n.value.func.attr in ('discard', 'sort') \
+                    and isinstance(n.value.func.value, ast.Name):
+                assigned.add(n.value.func.value.id)
+            if isinstance(n, ast.Continue) and self.u.hooks.get('local_defs'):
+                continue                                           # the next iteration with the current state (`ld_stmt`)
             if isinstance(n, (ast.Continue, ast.Try, ast.With)) or isinstance(n, ast.Break) and not self.u.hooks.get('value_semantics'):
                 raise Unsupported(f'`{self.inst.qual}`: `{type(n).__name__}` inside a loop body')
         has_break = _has_break(s.body)       # `break`: the code after the loop becomes a definition of its own (`<loop>.after`)
@@ -1442,6 +1728,8 @@ class FnTr:
         state = [n for n in self.env if n in assigned and n not in targets]
         fixed = [n for n in self.env if n not in state and self.env[n].typ not in ('None', 'Kw')]
         elem = xs.typ[5:]
+        if self.on_fall is not None and self.u.hooks.get('local_defs'):
+            return self.for_nested(s, rest, xs, targets, state, fixed)
         loop = f'{self.inst.lean}.loop{len(self.aux) + 1}'
         self.aux.append(None)                 # reserve the number (nested / later loops count on)
         slot = len(self.aux) - 1
@@ -2069,6 +2357,174 @@ class FnTr:
         return self.wrap(f'let {tmp} := ' + ' '.join([loop] + ctx + args) + '\n' + self.block(rest))
 
     # ---- expressions -----------------------------------------------------------------------------------
+    def ld_expr(self, e):
+        """expressions of the `local_defs` subset; None: not one of them (the common translation applies)"""
+        if isinstance(e, ast.Constant) and isinstance(e.value, str) and e.value in self.u.hooks.get('group_labels', {}):
+            t, typ = self.u.hooks['group_labels'][e.value]      # a label the unit declares a reading for
+            return Val(t, typ)
+        if isinstance(e, ast.BinOp) and isinstance(e.op, ast.Div):
+            a, b = self.unify_num(self.expr(e.left), self.expr(e.right))
+            if a.typ == b.typ == 'R':
+                return Val(f'({a.text} / {b.text})', 'R')         # exact division (Python raises on a zero divisor; Lean gives 0)
+            raise Unsupported(f'`{ast.unparse(e)[:60]}`: {a.typ} / {b.typ}')
+        if isinstance(e, ast.Tuple) and any(isinstance(x, ast.Starred) for x in e.elts):
+            return self._expr(ast.List(elts=e.elts, ctx=ast.Load()))     # `(*a, *b)`: only ever used as a sequence
+        if isinstance(e, ast.Tuple) and self.u.hooks.get('prod_tuples') and len(e.elts) == 2:
+            vals = [self.expr(v) for v in e.elts]
+            return Val(f'({vals[0].text}, {vals[1].text})', _mk_prod(vals[0].typ, vals[1].typ))
+        if isinstance(e, ast.List) and any(isinstance(x, ast.Starred) for x in e.elts):
+            parts, typ = [], None
+            for el in e.elts:
+                if isinstance(el, ast.Starred):
+                    v = self.expr(el.value)
+                    pp = _prod_parts(v.typ)
+                    if v.typ.startswith('Set ') and '?' not in v.typ:
+                        v = Val(v.text, 'List ' + v.typ[4:])          # the elements of a set, as a list
+                    elif v.typ.startswith('Prod ') and len(pp) == 2 and pp[0] == pp[1]:
+                        v = Val(f'[{_paren(v.text)}.1, {_paren(v.text)}.2]', 'List ' + pp[0])     # `*pair`
+                    if not v.typ.startswith('List '):
+                        raise Unsupported(f'`*` of {v.typ}')
+                    parts.append(v.text)
+                    t = v.typ[5:]
+                else:
+                    v = self.expr(el)
+                    parts.append(f'[{v.text}]')
+                    t = v.typ
+                if typ not in (None, t):
+                    raise Unsupported(f'list display of {typ} and {t}')
+                typ = t
+            return Val('(' + ' ++ '.join(parts) + ')', 'List ' + typ)
+        if isinstance(e, ast.ListComp) and self.u.hooks.get('map_comprehensions') and len(e.generators) == 1 \
+                and not e.generators[0].ifs and not getattr(e.generators[0], 'is_async', 0):
+            g = e.generators
+            # `[f(x) for x in xs]` / `[f(x, y) for x, y in xs]` -> `xs.map`; over a 2-tuple -> the pair of the two values
+            xs = self.expr(g[0].iter)
+            pp = _prod_parts(xs.typ)
+            if xs.typ.startswith('Set ') and '?' not in xs.typ:
+                xs = Val(xs.text, 'List ' + xs.typ[4:])
+            static_pair = xs.typ.startswith('Prod ') and len(pp) == 2 and pp[0] == pp[1]
+            if not (xs.typ.startswith('List ') and '?' not in xs.typ or static_pair):
+                raise Unsupported(f'comprehension over {xs.typ}')
+            elem = pp[0] if static_pair else xs.typ[5:]
+            tgt = g[0].target
+            x = self.gensym(lname(tgt.id) if isinstance(tgt, ast.Name) else 'pair')
+            inner = self.sub()
+            inner.fresh = self.fresh
+            if isinstance(tgt, ast.Name):
+                inner.env[tgt.id] = Val(x, elem, path=tgt.id)
+                inner.narrow.pop(tgt.id, None)
+            elif isinstance(tgt, ast.Tuple) and len(tgt.elts) == 2 and all(isinstance(t, ast.Name) for t in tgt.elts) \
+                    and len(_prod_parts(elem)) == 2 and elem.startswith('Prod '):
+                for i, (t, pt) in enumerate(zip(tgt.elts, _prod_parts(elem))):
+                    inner.env[t.id] = Val(f'{x}.{i + 1}', pt, path=t.id)
+                    inner.narrow.pop(t.id, None)
+            else:
+                raise Unsupported(f'comprehension target `{ast.unparse(tgt)}` over {xs.typ}')
+            v = inner.expr(e.elt)
+            if inner.pending:
+                raise Unsupported(f'`{self.inst.qual}`: a call that may raise inside a mapping comprehension')
+            self.fresh = inner.fresh
+            if static_pair:
+                return Val(f'(GV.Py.map2 (fun {x} => {v.text}) {_paren(xs.text)})', _mk_prod(v.typ, v.typ))
+            return Val(f'(({xs.text}).map (fun {x} => {v.text}))', 'List ' + v.typ)
+        if isinstance(e, ast.Call) and isinstance(e.func, ast.Name) and not e.keywords and e.func.id not in self.env:
+            f = e.func
+            if f.id in self.local_fns:
+                return self.lift_local_fn(f.id, self.spread_args(e.args))
+            if f.id in self.local_classes:
+                return self.local_ctor(f.id, [self.expr(a) for a in e.args])
+            if f.id not in self.u.intrinsics:
+                if f.id in ('min', 'max') and len(e.args) == 1 and isinstance(e.args[0], ast.List) and e.args[0].elts \
+                        and not any(isinstance(x, ast.Starred) for x in e.args[0].elts):
+                    vals = [self.expr(x) for x in e.args[0].elts]            # `max([a, b, …])` of floats-as-rationals
+                    if all(v.typ == 'R' for v in vals):
+                        acc = vals[0].text
+                        for v in vals[1:]:
+                            acc = f'(GV.{f.id}R {acc} {v.text})'
+                        return Val(acc, 'R')
+                    raise Unsupported(f'{f.id} of a list of {[v.typ for v in vals]}')
+                if f.id == 'abs' and len(e.args) == 1:
+                    v = self.expr(e.args[0])
+                    if v.typ == 'R':
+                        return Val(f'(GV.absR {v.text})', 'R')
+                    raise Unsupported(f'abs of {v.typ}')
+                if f.id == 'len' and len(e.args) == 1:
+                    v = self.expr(e.args[0])
+                    if v.typ.startswith(('List ', 'Set ')) and '?' not in v.typ:
+                        return Val(f'(({v.text}).length : Int)', 'Int')
+                    raise Unsupported(f'len of {v.typ}')
+                if f.id == 'set' and len(e.args) == 1:
+                    g = e.args[0]
+                    v = self.expr(ast.ListComp(elt=g.elt, generators=g.generators)) if isinstance(g, ast.GeneratorExp) else self.expr(g)
+                    if v.typ.startswith('Set ') and '?' not in v.typ:
+                        v = Val(v.text, 'List ' + v.typ[4:])
+                    if not v.typ.startswith('List ') or '?' in v.typ:
+                        raise Unsupported(f'set() of {v.typ}')
+                    return Val(f'(GV.Py.mkSet {self.elem_eq(v.typ[5:])} {_paren(v.text)})', 'Set ' + v.typ[5:])
+        return None
+
+    def ld_compare2(self, a, op, b):
+        """lexicographic order of 2-tuples, order of booleans, `==` on tuples of plain data; None: not one of them"""
+        if True:
+            if a.typ == b.typ and a.typ.startswith('Prod ') and isinstance(op, (ast.Lt, ast.LtE, ast.Gt, ast.GtE)) \
+                    and len(_prod_parts(a.typ)) == 2:
+                # Python compares tuples lexicographically: the first components decide unless they are equal
+                pa = _prod_parts(a.typ)
+                a1, a2 = Val(f'{_paren(a.text)}.1', pa[0]), Val(f'{_paren(a.text)}.2', pa[1])
+                b1, b2 = Val(f'{_paren(b.text)}.1', pa[0]), Val(f'{_paren(b.text)}.2', pa[1])
+                strict = ast.Lt() if isinstance(op, (ast.Lt, ast.LtE)) else ast.Gt()
+                e1, s1, r2 = self.compare2(a1, ast.Eq(), b1), self.compare2(a1, strict, b1), self.compare2(a2, op, b2)
+                return Val(f'(if {e1.text} then {r2.text} else {s1.text})', 'Bool')
+            if a.typ == b.typ == 'Bool' and isinstance(op, (ast.Lt, ast.LtE, ast.Gt, ast.GtE)):
+                t = {ast.Lt: '(!{0} && {1})', ast.LtE: '(!{0} || {1})', ast.Gt: '({0} && !{1})', ast.GtE: '({0} || !{1})'}[type(op)]
+                return Val(t.format(a.text, b.text), 'Bool')              # False < True
+            if a.typ == b.typ and a.typ.startswith('Prod ') and isinstance(op, (ast.Eq, ast.NotEq)) and _is_data(a.typ):
+                return Val(f'({a.text} {"==" if isinstance(op, ast.Eq) else "!="} {b.text})', 'Bool')
+        return None
+
+    def for_nested(self, s, rest, xs, targets, state, fixed):
+        """A loop (without state) inside a loop body: the auxiliary recursion returns `some v` where the body says
+        `return v` and `none` when the list is exhausted; the enclosing body goes on with the code after the loop in the
+        second case (so that it can still reach its own next iteration)."""
+        if state:
+            raise Unsupported(f'`{self.inst.qual}`: a loop nested in a loop body that assigns outer variables ({", ".join(state)})')
+        if self.inst.raises or self.inst.ret.startswith('Opt ') or self.inst.ret == '?':
+            raise Unsupported(f'`{self.inst.qual}`: a nested loop in a function returning {self.inst.ret}')
+        if len(targets) != 1 or not isinstance(s.target, ast.Name):
+            raise Unsupported(f'`{self.inst.qual}`: nested loop target `{ast.unparse(s.target)}`')
+        elem = xs.typ[5:]
+        loop = f'{self.inst.lean}.loop{len(self.aux) + 1}'
+        self.aux.append(None)
+        slot = len(self.aux) - 1
+        ctx = [n for n, _t in self.u.ctx_params]
+        aux = self.sub()
+        aux.fresh = self.fresh
+        aux.narrow = {}
+        aux.inst = Inst(self.inst.qual, self.inst.lean, self.inst.params, 'Opt ' + self.inst.ret, self.inst.doc)
+        fixed_b = []
+        for n in fixed:
+            nm = aux.gensym(lname(n))
+            fixed_b.append((nm, self.env[n].typ))
+            aux.env[n] = Val(nm, self.env[n].typ, path=n)
+        item, items = aux.gensym('item'), aux.gensym('items')
+        aux.env[targets[0]] = Val(item, elem, path=targets[0])
+        aux.on_fall = lambda tr: ' '.join([loop] + ctx + [tr.env[n].text for n in fixed] + [items])
+        body = aux.block(list(s.body))
+        self.fresh = aux.fresh
+        binders = ' '.join([f'({n} : {t})' for n, t in self.u.ctx_params] + [f'({n} : {lean_type(t)})' for n, t in fixed_b])
+        self.aux[slot] = '\n'.join([
+            f'/-- the `for {ast.unparse(s.target)} in {ast.unparse(s.iter)}` loop of `{self.inst.qual}` (inside a loop body): '
+            '`some v` = `return v`, `none` = exhausted -/',
+            f'def {loop} {binders} : List {_paren(lean_type(elem))} → {lean_type(aux.inst.ret)}',
+            '  | [] =>', '    none',
+            f'  | {item} :: {items} =>', _indent(body, 4)])
+        call = ' '.join([loop] + ctx + [self.env[n].text for n in fixed] + [_paren(xs.text)])
+        r = self.gensym('r')
+        pend, self.pending = self.pending, []
+        after = self.block(rest)
+        self.pending = pend
+        return self.wrap(f'match {call} with\n| some {r} => {self.ok(r)}\n| none =>\n{_indent(after)}')
+
     def truth(self, v):
         """Python truthiness as a Lean Bool"""
         if v.typ == 'Bool':
@@ -2111,6 +2567,10 @@ class FnTr:
                 return ext
         if self.u.hooks.get('pycoll'):
             ext = self.pc_expr(e)                # int-indexed lists, `/` that raises, map / dict comprehensions, …: see `pc_expr`
+            if ext is not None:
+                return ext
+        if self.u.hooks.get('local_defs'):
+            ext = self.ld_expr(e)                # products, `*pair`, `/`, local calls / constructors, `len`, `set(gen)`, …: see `ld_expr`
             if ext is not None:
                 return ext
         if isinstance(e, ast.Name):
@@ -2465,6 +2925,10 @@ class FnTr:
 
     def compare2(self, a, op, b):
         num = ('Dt', 'Td', 'Int')
+        if self.u.hooks.get('local_defs'):
+            r = self.ld_compare2(a, op, b)
+            if r is not None:
+                return r
         if isinstance(op, (ast.In, ast.NotIn)) and b.typ == 'Props' and a.typ == 'Str':
             r = Val(f'((GV.Coll.assocGet {b.text} {a.text}).isSome)', 'Bool')
             return r if isinstance(op, ast.In) else Val(f'(!{r.text})', 'Bool')
@@ -3150,6 +3614,26 @@ def _mutated_names(fn):
 def _cell_proj(text, i, n):
     """component i of an n-tuple `a × (b × (c × …))`"""
     return text + '.2' * i + ('.1' if i < n - 1 else '')
+
+
+def lean_ident(py):
+    """Lean name of a local class / nested function / dunder method: the Python name without its leading and trailing
+    underscores (a Lean name component that starts with `_` is an internal name)"""
+    return lname(py.strip('_') or py)
+
+
+def _mk_prod(a, b):
+    w = lambda t: f'({t})' if ' ' in t else t      # noqa: E731
+    return f'Prod {w(a)} {w(b)}'
+
+
+def _is_data(typ):
+    """plain data compared structurally by `==`: floats-as-rationals, ints, bools, points and tuples of them"""
+    if typ in ('R', 'Int', 'Bool', 'Pt', 'Dt', 'Td'):
+        return True
+    if typ.startswith('Prod '):
+        return all(_is_data(p) for p in _prod_parts(typ))
+    return False
 
 
 def _path(e):
